@@ -113,11 +113,31 @@ fn board_stream(rng: &mut Rng, wraps: u64, fault: Fault) -> Vec<Item> {
         }
     }
     if fault == Fault::Junk {
-        let pos = rng.below(items.len() as u64 + 1) as usize;
-        let w = match rng.below(3) {
+        let mut pos = rng.below(items.len() as u64 + 1) as usize;
+        let w = match rng.below(5) {
             0 => [rng.next() as u8, rng.next() as u8, rng.next() as u8, 0x80 | (59 + rng.below(68) as u8)],
             1 => [1, 2, 3, 0x7F & (rng.next() as u8)],
-            _ => [0x3D, 0, 0, 0xFE],
+            2 => [0x3D, 0, 0, 0xFE],
+            _ => {
+                // a scalers-like header 0xFE0000nn whose nn (> 60) is exactly the number of words of the
+                // next whole items, placed after the second marker: a parser that took the block length
+                // from the header would swallow them and carry on (seed C20-5)
+                let second_marker = items.iter().enumerate().filter(|(_, i)| matches!(i, Item::Marker { .. })).map(|(k, _)| k).nth(1);
+                let start = second_marker.map(|k| k + 1).unwrap_or(0).min(items.len());
+                pos = start + rng.below((items.len() - start) as u64 / 2 + 1) as usize;
+                let mut words = 0usize;
+                for it in &items[pos..] {
+                    if words > 60 {
+                        break;
+                    }
+                    words += item_bytes(it).len() / 4;
+                }
+                if words > 60 && words < (1 << 24) {
+                    [words as u8, (words >> 8) as u8, (words >> 16) as u8, 0xFE]
+                } else {
+                    [0x3D, 0, 0, 0xFE]
+                }
+            }
         };
         items.insert(pos, Item::Junk(w));
     }
@@ -171,7 +191,7 @@ pub fn generate(s: &mut Session, thorough: bool) -> bool {
     let nruns = if thorough { 4000 } else { 200 };
     let root = scratch_dir("c20");
     let faults = [Fault::None, Fault::None, Fault::None, Fault::DropMarker, Fault::DupMarker, Fault::TruncatedTail,
-        Fault::Junk, Fault::NoEpoch0, Fault::FirstMarkerTop, Fault::LeftoverBlock];
+        Fault::Junk, Fault::NoEpoch0, Fault::FirstMarkerTop, Fault::LeftoverBlock, Fault::Junk, Fault::None, Fault::Junk];
     let mut n_rows = 0usize;
     let mut n_times = 0usize;
     for r in 0..nruns {
